@@ -128,6 +128,8 @@ class Ctx:
                 c.setdefault("replay", dict(self.replay_info))
         if getattr(self, "vclock_bindings", None) and isinstance(witness, dict):
             witness.setdefault("virtual_clock", {"seed": self.seed * 1000 + self.shard, "bindings": self.vclock_bindings})
+        if getattr(self, "hash_seed", "") not in ("", "0") and isinstance(witness, dict):
+            witness.setdefault("hash_seed", self.hash_seed)
         if self.shard_env and isinstance(witness, dict):
             witness.setdefault("process_environment", self.shard_env)
         v = self.violations.setdefault(key, {"count": 0, "witnesses": []})
